@@ -810,6 +810,20 @@ func (cx *c03ctx) exec(line string) {
 		if st != "ok" && st != "bad-op" {
 			r.Fail("panic:shared-formula-without-index", fmt.Sprintf("scenario %s %s: %s (MergeCell E6:G8; SetCellFormula(F8, shared, Ref F8:F9); SetCellValue(G6) / SetCellFormula(A1, shared, Ref B1:B2); SetCellValue(A1))", w[1], w[2], st), ln, cx.replay())
 		}
+	case "shh":
+		if len(w) != 3 {
+			emit(line, "bad-op")
+			return
+		}
+		seed, _ := strconv.ParseUint(w[1], 10, 64)
+		n, _ := strconv.Atoi(w[2])
+		var fails []c03shFail
+		st := c03call(func() error { fails = c03sharedHistory(seed, n); return nil })
+		ln := emit(line, st)
+		r.Stat("shared-history")
+		for _, f := range fails {
+			r.Fail(f.sig, f.what, ln, "new 1\n"+line+"\n# "+strings.Join(f.hist, "\n# "))
+		}
 	case "hlrm":
 		sp := unhx(w[1])
 		ps := cx.watch()
@@ -1062,6 +1076,147 @@ func (cx *c03ctx) frameWrite(ln int, ps []c03pos, before map[c03pos]string, targ
 	}
 }
 
+// ---------------------------------------------------------------- shared formulas (oracle only)
+
+type c03shFail struct {
+	sig, what string
+	hist      []string
+}
+
+type c03shGroup struct {
+	col, r0, r1 int
+	refCol      string
+	op          string
+	k           int
+	live        bool
+}
+
+func (g *c03shGroup) text(r int) string {
+	if g.refCol == "" { // a master overwritten by a plain formula: the code keeps the group, every cell derives from that text
+		return g.op
+	}
+	return fmt.Sprintf("%s%d%s%d", g.refCol, r, g.op, g.k)
+}
+
+// c03sharedHistory runs a seeded history of shared-formula definitions (SetCellFormula with
+// FormulaOpts{Type: shared, Ref}), redefinitions, and overwrites of masters and dependents by values, plain and
+// empty formulas on a scratch file. After every op GetCellFormula of every cell of the region D1:H7 is
+// compared with a reference that follows the property text: a cell reads the last formula written to it
+// (explicitly or as the shifted text of the last group definition covering it); a write changes no other cell.
+// Two behaviours of the current code deviate from that reference on purpose-built paths; they get their own
+// signatures and the reference is re-synchronised after them, so that any other deviation is reported on its own.
+func c03sharedHistory(seed uint64, n int) (fails []c03shFail) {
+	rng := NewRng(seed)
+	f := xl.NewFile()
+	defer f.Close()
+	sh := xl.STCellFormulaTypeShared
+	const c0, c1, rmax = 4, 8, 7
+	exp := map[c03pos]string{}
+	groups := map[int]*c03shGroup{} // by column
+	var hist []string
+	fail := func(sig, what string) {
+		if len(fails) < 6 {
+			fails = append(fails, c03shFail{sig, what, append([]string(nil), hist...)})
+		}
+	}
+	read := func(c, r int) string {
+		v, err := f.GetCellFormula("Sheet1", c03name(c, r))
+		if err != nil {
+			return "ERR"
+		}
+		return v
+	}
+	for i := 0; i < n; i++ {
+		c, r := rng.Range(c0, c1), rng.Range(1, rmax-1)
+		g := groups[c]
+		touched := map[c03pos]bool{}
+		knownSig := "" // a deviation of the current code that is expected on the cells in `resync`
+		resync := map[c03pos]bool{}
+		var desc string
+		switch k := rng.Intn(10); {
+		case k < 4 || (g == nil && k < 6): // define / redefine a group
+			ng := &c03shGroup{col: c, refCol: []string{"A", "B", "C"}[rng.Intn(3)], op: []string{"+", "*"}[rng.Intn(2)], k: rng.Range(1, 9), live: true}
+			if g != nil && g.live {
+				ng.r0, ng.r1 = g.r0, g.r1 // same range again
+				if rng.Chance(30) {
+					ng.refCol, ng.op, ng.k = g.refCol, g.op, g.k // the same formula twice
+				}
+			} else {
+				ng.r0 = rng.Range(1, rmax-2)
+				ng.r1 = rng.Range(ng.r0+1, rmax)
+			}
+			ref := c03name(c, ng.r0) + ":" + c03name(c, ng.r1)
+			desc = fmt.Sprintf("SetCellFormula(%s, %q, shared, Ref %s)", c03name(c, ng.r0), ng.text(ng.r0), ref)
+			if err := f.SetCellFormula("Sheet1", c03name(c, ng.r0), ng.text(ng.r0), xl.FormulaOpts{Type: &sh, Ref: &ref}); err != nil {
+				desc += " = " + err.Error()
+			}
+			for rr := ng.r0; rr <= ng.r1; rr++ {
+				exp[c03pos{c, rr}] = ng.text(rr)
+				touched[c03pos{c, rr}] = true
+			}
+			groups[c] = ng
+		default:
+			p := c03pos{c, r}
+			touched[p] = true
+			master := g != nil && g.live && r == g.r0
+			dependent := g != nil && g.live && r > g.r0 && r <= g.r1
+			switch k {
+			case 6, 7:
+				desc = fmt.Sprintf("SetCellValue(%s, %d)", c03name(c, r), i)
+				_ = f.SetCellValue("Sheet1", c03name(c, r), i)
+				exp[p] = ""
+			case 8:
+				desc = fmt.Sprintf("SetCellFormula(%s, \"9+%d\")", c03name(c, r), i)
+				_ = f.SetCellFormula("Sheet1", c03name(c, r), fmt.Sprintf("9+%d", i))
+				exp[p] = fmt.Sprintf("9+%d", i)
+				if dependent {
+					knownSig = "shared:plain-formula-on-dependent-ignored"
+					resync[p] = true
+				}
+			default:
+				desc = fmt.Sprintf("SetCellFormula(%s, \"\")", c03name(c, r))
+				_ = f.SetCellFormula("Sheet1", c03name(c, r), "")
+				exp[p] = ""
+			}
+			if master {
+				knownSig = "shared:master-overwrite-changes-group"
+				for rr := g.r0 + 1; rr <= g.r1; rr++ {
+					resync[c03pos{c, rr}] = true
+				}
+				if k == 8 {
+					// the master keeps its shared attributes: the group lives on with the plain text as its formula
+					g.refCol, g.op = "", fmt.Sprintf("9+%d", i)
+				} else {
+					g.live = false
+				}
+			}
+			if dependent && k != 8 {
+				// the cell leaves the group; the others keep their formulas
+			}
+		}
+		hist = append(hist, desc)
+		for cc := c0; cc <= c1; cc++ {
+			for rr := 1; rr <= rmax; rr++ {
+				p := c03pos{cc, rr}
+				got := read(cc, rr)
+				if got == exp[p] {
+					continue
+				}
+				switch {
+				case resync[p]:
+					fail(knownSig, fmt.Sprintf("after %s: GetCellFormula(%s) = %q, the property demands %q", desc, c03name(cc, rr), got, exp[p]))
+				case touched[p]:
+					fail("shared:readback", fmt.Sprintf("after %s: GetCellFormula(%s) = %q, want %q", desc, c03name(cc, rr), got, exp[p]))
+				default:
+					fail("shared:frame", fmt.Sprintf("%s changed the formula of %s: %q -> %q", desc, c03name(cc, rr), exp[p], got))
+				}
+				exp[p] = got // report every deviation once
+			}
+		}
+	}
+	return fails
+}
+
 // frameStyles: the style of every watched position outside cx.styleTargets is what it was before the op
 // (GetCellStyle is not redirected, so this is a statement about the cells themselves).
 func (cx *c03ctx) frameStyles(ln int, ps []c03pos, what string) {
@@ -1251,7 +1406,10 @@ func (g *c03gen) pos(mode int) (int, int) {
 }
 
 var c03strings = []string{"", "a", "hello", " lead", "trail ", "tab\there", "line\nbreak", "<&>\"'", "ünï©ødé", "日本語", "1", "1.5", "TRUE", "=1+1",
-	"x_y", "_x", "x005F", "'quoted", "0012", "1e5", "  ", "\r\n", "_x0041_", "_x005F_", "_x005F_x0041_", "a_x000D_b", "ctl\x01\x1f"}
+	"x_y", "_x", "x005F", "'quoted", "0012", "1e5", "  ", "\r\n", "_x0041_", "_x005F_", "_x005F_x0041_", "a_x000D_b", "ctl\x01\x1f",
+	// lower- and mixed-case hex escapes (bstrUnmarshal decodes them, so writing must protect them): followed by
+	// `_`, by another escape, by a control character, at the end of the string
+	"_x000a_", "id_xabcd_suffix", "_xAbCd_", "_x000a__x000d_", "_x00e9__", "a_xabcd_\x01", "_x005f_x000a_", "_xabcd", "x_x00Af_", "_x000A__xabCD_\x1f", "_x005f_"}
 
 func (g *c03gen) payload() string {
 	rng := g.rng
@@ -1701,6 +1859,18 @@ func runC03(r *Run, rng *Rng, replay string) {
 			r.Notes = append(r.Notes, fmt.Sprintf("slow transcript %d (mode %d): %.1fs", t, mode, d.Seconds()))
 			fmt.Fprintf(os.Stderr, "c03: slow transcript %d (mode %d): %.1fs\n", t, mode, d.Seconds())
 		}
+	}
+	// shared-formula histories (scratch files, oracle only)
+	cx.exec("new 1")
+	nSh := 40
+	if thorough {
+		nSh = 400
+	}
+	cx.exec("shh 1 12") // deterministic: covers both known deviations
+	cx.exec("shh 2 12")
+	cx.exec("shh 3 12")
+	for i := 0; i < nSh; i++ {
+		cx.exec(fmt.Sprintf("shh %d %d", rng.U64()%1000000, rng.Range(6, 30)))
 	}
 	// malformed stream
 	cx.exec("new 2")
